@@ -145,7 +145,8 @@ def check(ctx):
     _ids_rule(ctx, abs_)
 
     # ---- C15.outevent ------------------------------------------------------------------------------------------------------
-    _outevent_rule(ctx, abs_)
+    if not _outevent_by_interpretation(ctx):
+        _outevent_rule(ctx, abs_)
 
     # ---- C15.terminates ----------------------------------------------------------------------------------------------------
     mut = Mutations(prog, cg)
@@ -158,6 +159,71 @@ def check(ctx):
         run.add('C15.terminates', fn.module.name, fn.qualname, node if kind != 'for' else node.iter, ok, msg,
                 node=node, nontrivial=(kind != 'for'))
     run.floor('C15.terminates', 5)
+
+
+def _outevent_by_interpretation(ctx) -> bool:
+    """parse_event interpreted (dznverif.scenario, E6) on every event element shape that matters for the two refusals:
+    direction in / out  x  reply type void / a named type  x  formals: none, in, out, inout, in + out, inout + in.  An out
+    event must be refused with DznJsonError exactly when its reply is not void or one of its formals is `out`; everything
+    else must parse.  The element is well-formed JSON in every other respect (malformed elements are the business of
+    C15.escape / C15.typestate).  False when parse_event cannot be interpreted: the guard-shape rule decides then."""
+    from ..scenario import Interp, Raised, Undecided, Obj
+    run, prog = ctx.run, ctx.prog
+    pe = prog.func('json_ast', 'parse_event')
+    err = prog.classes.get('dznpy.json_ast.DznJsonError')
+    # who may construct an Event: only parse_event (and what it calls) - another construction site in the parser is judged by
+    # the guard-shape rule, which wants the two refusals after every construction
+    evc = prog.cls('ast', 'Event')
+    allowed = {pe.fq} | {c.fq for c in ctx.cg.reachable([pe])}
+    for f_ in prog.all_functions():
+        if f_.module is pe.module and f_.fq not in allowed:
+            for c_ in iter_own_nodes(f_.node):
+                if isinstance(c_, ast.Call) and isinstance(c_.func, (ast.Name, ast.Attribute)) and \
+                        prog.resolve_expr_symbol(f_.module, c_.func) is evc:
+                    return False
+
+    def scope_name(ids):
+        return {'<class>': 'scope_name', 'ids': list(ids)}
+
+    def formal(name, direction):
+        return {'<class>': 'formal', 'name': name, 'type_name': scope_name(['int']), 'direction': direction}
+    bad: List[str] = []
+    n = 0
+    try:
+        for direction in ('in', 'out'):
+            for reply in (['void'], ['Result'], ['My', 'Result']):
+                for fdirs in ((), ('in',), ('out',), ('inout',), ('in', 'out'), ('inout', 'in'), ('out', 'out')):
+                    el = {'<class>': 'event', 'name': 'Ev', 'direction': direction,
+                          'signature': {'<class>': 'signature', 'type_name': scope_name(reply),
+                                        'formals': {'<class>': 'formals', 'elements': [formal(f'p{i}', d_) for i, d_ in enumerate(fdirs)]}}}
+                    n += 1
+                    must_refuse = direction == 'out' and (reply != ['void'] or 'out' in fdirs)
+                    label = f'{direction} event, reply {".".join(reply)}, formals {list(fdirs)}'
+                    try:
+                        res = Interp(prog).call_function(pe, [el], {})
+                        if must_refuse:
+                            bad.append(f'{label}: accepted')
+                        elif not isinstance(res, Obj):
+                            raise Undecided('parse_event does not return an Event')
+                    except Raised as exc:
+                        c = prog.classes.get(exc.name)
+                        is_doc = c is not None and err is not None and (c is err or prog.is_subclass(c.fq, err.fq))
+                        if not must_refuse:
+                            bad.append(f'{label}: refused with {exc.name.split(".")[-1]} although it is valid')
+                        elif not is_doc:
+                            bad.append(f'{label}: refused with {exc.name.split(".")[-1]}, not DznJsonError')
+    except Undecided as exc:
+        run.remark(f'C15: parse_event could not be interpreted on the out-event scenarios ({exc}); the guard-shape rule decides')
+        return False
+    voids = [b for b in bad if 'reply void' not in b and 'accepted' in b]
+    run.add('C15.outevent', pe.module.name, pe.qualname, f'{n} event shapes: valued out events', not [b for b in bad if 'reply void' not in b],
+            'an out event whose reply is not void is refused with DznJsonError; in events with a reply parse' if not [b for b in bad if 'reply void' not in b]
+            else 'out event with a non-void reply: ' + '; '.join([b for b in bad if 'reply void' not in b][:2]))
+    rest = [b for b in bad if 'reply void' in b]
+    run.add('C15.outevent', pe.module.name, pe.qualname, f'{n} event shapes: out parameters of out events', not rest,
+            'an out event with an out parameter is refused with DznJsonError; in / inout parameters and in events parse' if not rest else
+            'out event with an out parameter: ' + '; '.join(rest[:2]))
+    return True
 
 
 def _ids_rule(ctx, abs_):
